@@ -40,11 +40,19 @@ SETUP2 = {
 PREFIX = {"str": "73", "list": "6c", "hash": "68", "set": "74", "zset": "7a"}
 
 
-def table(open_line, evict_between=False, with_deadline=False):
+RELATIVE = ("SetEX", "SetPX", "Expire", "ExpirePX")     # deadline = the instant of the command + a duration
+
+
+def table(open_line, evict_between=False, with_deadline=False, relative=False):
+    """relative: include the commands whose deadline depends on the instant of the command - only on the
+    deterministic clock (on the wall clock the harness's and the implementation's clock reads can fall
+    into different milliseconds)"""
     ops = [open_line]
     body = []
     for typ, ws in WRITERS.items():
         for i, w in enumerate(ws):
+            if w.split()[0] in RELATIVE and not relative:
+                continue
             K, S, N = (f"{PREFIX[typ]}{i:02x}{suffix}" for suffix in ("4b", "53", "4e"))
             ops += SETUP[typ](K) + SETUP2[typ](S)
             if with_deadline:
